@@ -38,6 +38,7 @@ partial def valOf? : Sexp → Option Val
   | .list [.atom "ptr", .atom "null"] => some (.ptr none)
   | .list [.atom "ptr", .str n] => (objId (String.ofList n)).map fun o => .ptr (some o)
   | .list (.atom "list" :: xs) => (Sexp.mapM? valOf? xs).map .list
+  | .list [.atom "variant", .atom "invalid"] => some (.variant .void)
   | .list [.atom "variant", v] => (valOf? v).map .variant
   | _ => none
 
@@ -58,6 +59,7 @@ partial def showVal : Val → Sexp
   | .ptr none => .list [.atom "ptr", .atom "null"]
   | .ptr (some o) => .list [.atom "ptr", .atom (objName o)]
   | .list xs => .list (.atom "list" :: xs.map showVal)
+  | .variant .void => .list [.atom "variant", .atom "invalid"]
   | .variant v => .list [.atom "variant", showVal v]
   | .void => .atom "void"
 
@@ -199,8 +201,18 @@ def typeVariant (t : EnumTable) (ty variant : String) : Option Int :=
   | some ci => ((ci.variants.find? (·.1 = variant)).bind fun (_, e) => enumValue t e variant)
   | none => none
 
-def specCtx (t : EnumTable) : QV.Spec.Sem.Ctx :=
-  { H := host
+/-- which reading of the language judges: the specification, or the specification with ONE named deviation of the
+    code (used only to attribute a failure to a known finding exactly) -/
+structure Variant where
+  /-- F42: call arguments are evaluated before the callee expression -/
+  argsFirst : Bool := false
+  /-- F41: an integer constant outside the `int` range that is an argument of `Math.max`/`Math.min` or of a method is
+      emitted as a C++ `long` literal: template deduction / overload resolution fails, the header does not compile -/
+  longConst : Bool := false
+
+def specCtx (t : EnumTable) (v : Variant := {}) : QV.Spec.Sem.Ctx :=
+  { argsFirst := v.argsFirst
+    H := host
     objects := objectTable
     thisObj := some (1, "VBase")
     enumVal := typeVariant t
@@ -218,12 +230,15 @@ def irCtx (t : EnumTable) : IrSem.ICtx :=
 
 structure Parsed where
   enums : EnumTable
+  /-- the state of freshly constructed objects (the one `setup()` evaluates the binding in), if the request has it -/
+  init : Option (List (Nat × ObjState)) := none
   states : List (List (Nat × ObjState))
   progs : List (String × Program)
   impl : Option Sexp
 
 def parse (args : List Sexp) : Option Parsed := do
   let mut enums : EnumTable := []
+  let mut init := none
   let mut states := []
   let mut progs := []
   let mut impl := none
@@ -231,18 +246,19 @@ def parse (args : List Sexp) : Option Parsed := do
     match a with
     | .list (.atom "enums" :: _) => enums ← enumsOf? a
     | .list (.atom "states" :: ss) => states ← Sexp.mapM? stateOf? ss
+    | .list [.atom "init", st] => init := some (← stateOf? st)
     | .list [.atom "prog", .list [.atom "prop", .str p], prog] =>
       progs := progs ++ [(String.ofList p, ← QV.Driver.Ir.program? prog)]
     | .list [.atom "impl", x] => impl := some x
     | _ => pure ()
-  pure { enums, states, progs, impl }
+  pure { enums, init, states, progs, impl }
 
 def propTyOf (t : EnumTable) (prop : String) : Ty :=
   (((specCtx t).propTy "VBase" prop).map (·.ty)).getD .int
 
 /-- value of the binding under the reference semantics in each state: `some sexp` or `none` (undefined) -/
-def specValues (p : Parsed) (prop : String) (prog : Program) : List (Option Sexp) :=
-  let c := specCtx p.enums
+def specValues (p : Parsed) (prop : String) (prog : Program) (v : Variant := {}) : List (Option Sexp) :=
+  let c := specCtx p.enums v
   p.states.map fun st => (QV.Spec.Sem.bindingValue c prog (worldOf st) (propTyOf p.enums prop)).map showVal
 
 def optShow : Option Sexp → Sexp
@@ -261,15 +277,57 @@ def compareValues (spec impl : List (Option Sexp)) : Nat × Nat × List Sexp :=
         (bad ++ [.list [.atom "state", .ofNat k, .atom "spec", v, .atom "impl", optShow got]]) ss (is.drop 1)
   go 0 0 0 [] spec impl
 
-/-- `(spec-c01 …)` -/
-def handleSpecC01 (args : List Sexp) : Sexp :=
+def isInfix (pat : List Char) : List Char → Bool
+  | [] => pat.isEmpty
+  | cs@(_ :: rest) => pat.isPrefixOf cs || isInfix pat rest
+
+def outsideInt : Operand → Bool
+  | .const (.integer v) => !(QV.Spec.Sem.inI32 v)
+  | _ => false
+
+/-- the model IR passes an integer constant outside the `int` range to `std::max`/`std::min` or to a method -/
+def usesLongConstant (code : CodeBody) : Bool :=
+  code.blocks.any fun b => b.statements.any fun st =>
+    match st with
+    | .assign _ (.callBuiltin .max as) | .assign _ (.callBuiltin .min as) | .exec (.callBuiltin .max as)
+    | .exec (.callBuiltin .min as) => as.any outsideInt
+    | .assign _ (.callMethod _ _ as) | .exec (.callMethod _ _ as) => as.any outsideInt
+    | _ => false
+
+def walkCtx : Ctx :=
+  { env, F := QV.Driver.Ir.floatOps, objects := objectTable.map fun (n, _, c) => (n, c), thisObj := some ("VBase", "a") }
+
+/-- F41 variant: is this compile error the one a `long` literal causes in this program? -/
+def longConstError (callback : Bool) (prog : Program) (msg : Sexp) : Bool :=
+  let text := match msg with | .str m => m | _ => []
+  let classOk := isInfix "error: no matching function for call to 'max(".toList text ||
+    isInfix "error: no matching function for call to 'min(".toList text ||
+    (isInfix "error: call of overloaded '".toList text && isInfix "(long int)' is ambiguous".toList text)
+  match (build walkCtx callback prog).code with
+  | some code => classOk && isInfix "long int".toList text && usesLongConstant code
+  | none => false
+
+/-- `(setup X)`: a crash while `setup()` evaluates the binding in the initial state is a failure iff the reference
+    semantics defines a value there -/
+def setupFailure (p : Parsed) (prop : String) (prog : Program) (setup : Sexp) : Option Sexp :=
+  match setup, p.init with
+  | .list [.atom "setup", .atom x], some init =>
+    if x = "sigsegv" ∨ x = "sigfpe" ∨ x = "ub" ∨ x = "unreachable" ∨ x = "signal" ∨ x = "died" then
+      match QV.Spec.Sem.bindingValue (specCtx p.enums) prog (worldOf init) (propTyOf p.enums prop) with
+      | some v => some (.list [.atom "setup", .atom x, .atom "spec", showVal v])
+      | none => none
+    else none
+  | _, _ => none
+
+/-- `(spec-c01 …)` (and its finding variants) -/
+def handleSpecC01 (args : List Sexp) (v : Variant := {}) : Sexp :=
   match parse args with
   | none => .list [.atom "bad-request"]
   | some p =>
     match p.impl with
     | none =>
       -- no implementation answer: print the specification's values
-      .list (.atom "values" :: p.progs.map fun (prop, prog) => .list (.atom "v" :: (specValues p prop prog).map optShow))
+      .list (.atom "values" :: p.progs.map fun (prop, prog) => .list (.atom "v" :: (specValues p prop prog v).map optShow))
     | some (.list (.atom "results" :: rs)) =>
       let rec go (k : Nat) (cmp und skipped : Nat) (bad : List Sexp) : List (String × Program) → List Sexp → Sexp
         | [], _ =>
@@ -278,14 +336,18 @@ def handleSpecC01 (args : List Sexp) : Sexp :=
         | (prop, prog) :: ps, rs =>
           let r := rs.head?.getD (.list [.atom "r", .atom "missing"])
           (match r with
-           | .list (.atom "r" :: .atom "ok" :: _setup :: vals) =>
+           | .list (.atom "r" :: .atom "ok" :: setup :: vals) =>
              let impl := vals.map fun v => match v with
                | .list (.atom "fail" :: _) => none
                | v => some v
-             let (c, u, b) := compareValues (specValues p prop prog) impl
-             let bad' := if b.isEmpty then bad else bad ++ [.list (.atom "p" :: .ofNat k :: .atom "value" :: b.take 3)]
+             let (c, u, b) := compareValues (specValues p prop prog v) impl
+             let bad1 := match setupFailure p prop prog setup with
+               | some f => bad ++ [.list [.atom "p", .ofNat k, .atom "setup-crash", f]]
+               | none => bad
+             let bad' := if b.isEmpty then bad1 else bad1 ++ [.list (.atom "p" :: .ofNat k :: .atom "value" :: b.take 3)]
              go (k + 1) (cmp + c) (und + u) skipped bad' ps (rs.drop 1)
            | .list [.atom "r", .atom "error", msg] =>
+             if v.longConst && longConstError false prog msg then go (k + 1) cmp und (skipped + 1) bad ps (rs.drop 1) else
              go (k + 1) cmp und skipped (bad ++ [.list [.atom "p", .ofNat k, .atom "compile-error", msg]]) ps (rs.drop 1)
            | .list [.atom "r", .atom "rejected"] =>
              -- rejected although every state has a defined value? only counted (over-rejection is C05's business)
@@ -387,19 +449,19 @@ def parse13 (args : List Sexp) : Option Parsed13 := do
   pure { enums, states, sigargs, handlers, impl }
 
 /-- the trace the reference semantics prescribes for the handler in each state (`none`: undefined) -/
-def specTraces (p : Parsed13) (sg : String) (prog : Program) : List (Option Sexp) :=
-  let c := specCtx p.enums
+def specTraces (p : Parsed13) (sg : String) (prog : Program) (v : Variant := {}) : List (Option Sexp) :=
+  let c := specCtx p.enums v
   (p.states.zip p.sigargs).map fun (st, sa) =>
     let args := ((sa.find? (·.1 = sg)).map (·.2)).getD []
     (QV.Spec.Sem.run c prog (worldOf st) args).map fun r => .list (.atom "t" :: r.trace.map showEv)
 
-/-- `(spec-c13 …)` -/
-def handleSpecC13 (args : List Sexp) : Sexp :=
+/-- `(spec-c13 …)` (and its finding variants) -/
+def handleSpecC13 (args : List Sexp) (v : Variant := {}) : Sexp :=
   match parse13 args with
   | none => .list [.atom "bad-request"]
   | some p =>
     match p.impl with
-    | none => .list (.atom "traces" :: p.handlers.map fun (sg, prog) => .list (.atom "h" :: (specTraces p sg prog).map optShow))
+    | none => .list (.atom "traces" :: p.handlers.map fun (sg, prog) => .list (.atom "h" :: (specTraces p sg prog v).map optShow))
     | some (.list (.atom "results" :: rs)) =>
       let rec go (k : Nat) (cmp und skipped : Nat) (bad : List Sexp) : List (String × Program) → List Sexp → Sexp
         | [], _ =>
@@ -414,11 +476,12 @@ def handleSpecC13 (args : List Sexp) : Sexp :=
              let impl := vals.map fun v => match v with
                | .list (.atom "fail" :: _) => none
                | v => some v
-             let (c, u, b) := compareValues (specTraces p sg prog) impl
+             let (c, u, b) := compareValues (specTraces p sg prog v) impl
              let bad1 := if setupOk then bad else bad ++ [.list [.atom "p", .ofNat k, .atom "connections", setup]]
              let bad' := if b.isEmpty then bad1 else bad1 ++ [.list (.atom "p" :: .ofNat k :: .atom "trace" :: b.take 2)]
              go (k + 1) (cmp + c) (und + u) skipped bad' ps (rs.drop 1)
            | .list [.atom "r", .atom "error", msg] =>
+             if v.longConst && longConstError true prog msg then go (k + 1) cmp und (skipped + 1) bad ps (rs.drop 1) else
              go (k + 1) cmp und skipped (bad ++ [.list [.atom "p", .ofNat k, .atom "compile-error", msg]]) ps (rs.drop 1)
            | .list (.atom "r" :: .atom _ :: _) => go (k + 1) cmp und (skipped + 1) bad ps (rs.drop 1)
            | other => go (k + 1) cmp und skipped (bad ++ [.list [.atom "p", .ofNat k, .atom "unreadable", other]]) ps (rs.drop 1))
